@@ -21,6 +21,9 @@ def gen_text(r, malformed=False):
     err = False
     for i in range(m):
         if r.random() < 0.15: lines.append(comment())
+        if r.random() < 0.06: lines.append("")                                   # an empty line
+        if r.random() < 0.04:                                                    # a comment filling the 1024-byte buffer exactly / almost
+            lines.append("c" + "x" * (r.choice([1021, 1022, 1022]) ))
         u, v = r.randint(1, n), r.randint(1, n)
         if i == bad_at:
             u = r.choice([0, n + 1, n + 5, -1]); err = True
@@ -33,6 +36,7 @@ def gen_text(r, malformed=False):
         lines.append(line)
         if not err: edges.append((u - 1, v - 1, tok))
     for _ in range(r.randint(0, 1)): lines.append(comment())
+    if r.random() < 0.1: lines.append("")                                        # trailing empty line
     trailing = r.random() < 0.5
     text = "\n".join(lines) + ("\n" if trailing else "")
     return text, (("error",) if err else ("ok", n, edges)), trailing
@@ -84,6 +88,8 @@ def run(tier, replay=None):
         open(f, "w").write(t)
         raws = t.split("\n")
         raw_lines = [l + "\n" for l in raws[:-1]] + ([raws[-1]] if raws[-1] != "" else [])
+        # fgets(buffer, 1024) hands over at most 1023 characters at a time
+        raw_lines = [l[i:i + 1023] for l in raw_lines for i in range(0, len(l), 1023)]
         text += "case %s dimacs %s\n" % (cid, f) + "".join("raw %s\n" % l.encode().hex() for l in raw_lines) + "end\n"
     rc, out, err = run_harness(binary, text)
     if rc != 0:
